@@ -653,19 +653,27 @@ class XsdComplexType(XsdType, ValidationMixin[Union[ElementType, str, bytes], An
 
         if self is other or self.ref is other:
             return True
-        elif other.name == nm.XSD_ANY_TYPE:
+        elif other.name == nm.XSD_ANY_TYPE and \
+                (derivation is None or self.base_type is None):
+            # with a derivation mode still to be found the chain has to be
+            # walked: only the implicit step from a root type is a restriction
             return derivation != 'extension'
         elif self.base_type is other:
             return derivation is None
-        elif isinstance(other, XsdUnion):
-            return any(self.is_derived(m, derivation) for m in other.member_types)
+        elif isinstance(other, XsdUnion) and \
+                any(self.is_derived(m, derivation) for m in other.member_types):
+            return True
         elif self.base_type is None:
             if not self.has_simple_content():
                 return False
             return isinstance(self.content, XsdSimpleType) and \
+                (derivation is None or self.content is not other) and \
                 self.content.is_derived(other, derivation)
         elif self.has_simple_content():
+            # the content type is not a step of the derivation chain: when it is
+            # the target itself it says nothing about the derivation mode
             return isinstance(self.content, XsdSimpleType) and \
+                (derivation is None or self.content is not other) and \
                 self.content.is_derived(other, derivation) or \
                 self.base_type is not self and \
                 self.base_type.is_derived(other, derivation)
